@@ -118,8 +118,11 @@ CLAIMS = {
    technique='Lean 4 theorem (functional induction over rglob) + differential correspondence', design='7 C16'),
  'C17': dict(text='Lean theorems: tryParse_encode for arbitrary bytes (payloads are taken by length), command-name normalisation touches only the first field and queued arguments are kept verbatim '
         '(multi_queues_args_unchanged). ' + TIE + 'Binary round trips (all 256 byte values, CR LF, NUL, empty, 100 kB) through every container type, MULTI and pub/sub; redis-py client level '
-        'with decode_responses on/off.',
-        note=NOTE + "redis-py's Encoder is external.", technique='Lean 4 parser theorems + binary round-trip correspondence', design='7 C17'),
+        'with decode_responses on/off. Client-side decoding is part of the model since round 4 (FR/Sys/Client.lean: read_response/_decode of both front-ends with the utf-8 / latin-1 / ascii '
+        'codecs and the strict / replace / ignore handlers, exact incl. CPython error spans) with FR.Props.C17c: decode_every_bulk (iff: the result is the reply with every bulk at every depth '
+        'replaced by its decoding and nothing else changed), decode_structure, decode_disabled_identity, decode_roundtrip, decode_strict_fails_iff, decode_lenient_total, status_like_bulk, '
+        'raised_iff_toplevel; tied by a compiled driver (clientdriver) against the real sync and asyncio connections on random nested replies in every configuration.',
+        note=NOTE + "redis-py's Encoder and CPython's codecs are modelled (FR/Sys/Client.lean) and tied differentially, not verified.", technique='Lean 4 parser theorems + client decoding model with theorems + binary round-trip correspondence', design='7 C17'),
  'C18': dict(text='Lean theorems: int_decode_iff (accepted iff canonical decimal within range) for Int/DbIndex/BitOffset/BitValue/Timeout, encode_guard, float converters never return NaN and reject '
         'underscores / leading / trailing whitespace. ' + TIE + 'Function-level correspondence of every converter on decorated literals; the exact binary64 model against CPython '
         '(parse, %.17g, %.17f, +, *) on boundary and random doubles; strtod-grammar judgement of accepted floats.',
@@ -160,7 +163,7 @@ for i in ids:
         na.append({'property_id': i, 'reason': PENDING})
 m = {
  'version': 1,
- 'setup_cmd': 'cd lean && lake build FR driver Bridge Props && cd .. && /venv/bin/python -m compileall -q harness tools',
+ 'setup_cmd': 'cd lean && lake build FR driver clientdriver Bridge Props && cd .. && /venv/bin/python -m compileall -q harness tools',
  'hooks': {'guard': 'FAKEREDIS_PY_VERIF', 'enable': 'no hook is needed: the harness subclasses FakeSocket and patches module attributes at run time',
            'baseline_off_cmd': 'cd /repo && /venv/bin/python -m pytest -ra -q -p no:cacheprovider --timeout=900', 'source_commits': [], 'add_only': True},
  'engines': [{'name': 'lean-fr', 'path': 'lean', 'serves_properties': sorted(CLAIMS), 'kind_free_text':
